@@ -1262,6 +1262,32 @@ Proof.
     apply (phI_step t s (PJoin c) s1 Hwf HP); [|exact Hs]. simpl. right. exact Hh.
 Qed.
 
+(* on histories without joins [known_S19] is literally "two PSet with different parents and no
+   quiescent state in between" *)
+Lemma s19_lit_from_eq tr : forall g t s,
+  pjoiners tr = [] -> (pquiescent s \/ exists u', g = Some u' /\ t = Some u') ->
+  s19_lit_from g s tr = s19_from t s tr.
+Proof.
+  induction tr as [|e tr IH]; intros g t s Hj Hinv; [reflexivity|].
+  cbn [s19_lit_from s19_from]. destruct (pstep s e) as [s1|] eqn:Hs; [|reflexivity].
+  destruct e as [p u|p|src dst|c]; [| | |simpl in Hj; discriminate].
+  - rewrite (IH (Some u) (Some u) s1 Hj) by (right; eauto). f_equal.
+    unfold pquiescentb. destruct (decide (pquiescent s)) as [Hq|Hq].
+    + rewrite (bool_decide_eq_true_2 _ Hq). reflexivity.
+    + rewrite (bool_decide_eq_false_2 _ Hq). destruct Hinv as [Hq'|(u' & -> & ->)]; [contradiction|].
+      simpl. f_equal. apply bool_decide_ext. split; congruence.
+  - apply IH; [exact Hj|]. unfold pquiescentb. destruct (decide (pquiescent s)) as [Hq|Hq].
+    + destruct (quiescent_is_stable s Hq _ _ Hs) as [[]| ->]. left. exact Hq.
+    + rewrite (bool_decide_eq_false_2 _ Hq). destruct Hinv as [Hq'|Hr]; [contradiction|right; exact Hr].
+  - apply IH; [exact Hj|]. unfold pquiescentb. destruct (decide (pquiescent s)) as [Hq|Hq].
+    + destruct (quiescent_is_stable s Hq _ _ Hs) as [[]| ->]. left. exact Hq.
+    + rewrite (bool_decide_eq_false_2 _ Hq). destruct Hinv as [Hq'|Hr]; [contradiction|right; exact Hr].
+Qed.
+
+Lemma known_S19_literal_nojoin n tr :
+  pjoiners tr = [] -> known_S19_literal (pinit n) tr = known_S19 (pinit n) tr.
+Proof. intros Hj. apply s19_lit_from_eq; [exact Hj|]. left. apply pinit_quiescent. Qed.
+
 Lemma pinit_host_par n : ppar (pinit n) host = None.
 Proof. unfold ppar. rewrite pinit_pget. reflexivity. Qed.
 
@@ -1498,7 +1524,7 @@ Proof.
   assert (Hh : ppar s host = x) by (apply Ha; left; reflexivity). rewrite Hh.
   destruct x as [u|].
   - pose proof (agree_quiescent_ph u s Hq Ha) as HP.
-    assert (HP1 : Ph u s1) by (eapply ph_join; eauto).
+    assert (HP1 : Ph u s1) by (apply (ph_join u s c s1 Hwf HP (or_intror Hh) Hjoin)).
     destruct (drain_run u tr s1 s' Hwf1 HP1 Hd Hrun) as (_ & HP' & _ & _ & Hs).
     split; [|intros Hq'; apply ph_quiescent_agree; assumption].
     pose proof (join_par s c s1) as Hpar. pose proof (join_chg s c s1) as Hchg.
